@@ -18,7 +18,7 @@ step the result must equal that of a brand-new executor + session on the current
 deterministic descriptor encodings (with source info), identical rendered canonical report.  Parallelism 1 and 4.
 The oracle is this differential relation (stated by the property); the spec supplies histories, changed-path sets
 and the cycle classification, and its validity verdict is checked against the fresh compile of every step."""
-import json, os, time, collections, threading
+import json, os, time, collections, concurrent.futures
 import vf
 
 WORKERS = int(os.environ.get("VERIF_TLC_WORKERS", "4"))
@@ -40,12 +40,13 @@ CONSTANTS
   MaxLen = %(maxlen)d
   RunChoices = {%(runs)s}
   EditKinds = {%(edits)s}
+  Closing = %(closing)s
   InitNames = {%(inits)s}
   ReqModes = {%(reqs)s}
   ViewMode = "%(view)s"
   ExportAt = "%(exportat)s"
 VIEW View
-INVARIANTS TypeOK LastStepOK Export
+INVARIANTS %(invs)s
 CHECK_DEADLOCK FALSE
 """
 
@@ -60,7 +61,8 @@ def _cfg(files="abc", pkgs="pq", decls="ABES", refnames=("A", "E", "S", "Hb"), s
     return CFG % dict(files=_q(files), pkgs=_q(pkgs), decls=_q(decls), refnames=_q(refnames), slots=_q(slots),
                       maximports=maximports, allowself="TRUE" if allowself else "FALSE", defects=_q(defects),
                       maxlen=maxlen, runs=", ".join(runs), edits=_q(edits), inits=_q(inits), reqs=_q(reqs),
-                      view=view, exportat=exportat)
+                      view=view, exportat=exportat, closing="TRUE" if exportat == "end" else "FALSE",
+                      invs="Export" if exportat == "end" else "TypeOK LastStepOK Export")
 
 
 # ------------------------------------------------------------------------------------------------
@@ -199,6 +201,32 @@ def _replay(pid, replay, binary, wd):
 
 # ------------------------------------------------------------------------------------------------
 
+NAME_EDITS = ("AddDecl", "AddFile", "RemoveFile")
+DECL_EDITS = ["AddDecl", "RemoveDecl", "MoveDecl", "AddFile", "RemoveFile", "RenamePackage"]
+
+
+def _plan(tier):
+    """(name, cfg, simulate, depth, replay-sample or None = all exported histories)"""
+    small = dict(decls="AES", refnames=("A", "Hb"), slots=("f1",), defects=("unknown",))
+    rich = dict(refnames=("A", "B", "E", "S", "Ha", "Hb", "Hc"), slots=("f1", "f2", "x"))
+    if tier == "thorough":
+        return [
+            ("bfs2_chain", _cfg(maxlen=2, inits=("chain",), reqs=("present",), view="trans"), None, None, 5000),
+            ("bfs2_public", _cfg(maxlen=2, inits=("public",), reqs=("present", "a"), view="trans", **small), None, None, 2500),
+            ("bfs2_hole_cycle", _cfg(maxlen=2, inits=("hole", "cycle"), reqs=("present",), view="trans", **small), None, None, 2500),
+            ("bfs3_decls", _cfg(maxlen=3, inits=("late", "twins"), reqs=("present",), view="full", decls="ABES", refnames=("A",),
+                                slots=("f1",), defects=("unknown",), edits=DECL_EDITS), None, None, 5000),
+            ("sim_long", _cfg(files="abcd", maxlen=24, inits=("chain", "public", "flat", "hole", "cycle", "twins", "late"),
+                              reqs=("present", "a", "all"), runs=("TRUE", "FALSE"), view="full", exportat="end", **rich), 250, 26, None),
+        ]
+    return [
+        ("bfs2", _cfg(maxlen=2, inits=("hole", "twins"), reqs=("present",), view="trans", allowself=False, decls="ABE",
+                      refnames=("A", "Hb"), slots=("f1",), defects=("unknown",)), None, None, 420),
+        ("sim", _cfg(files="abcd", maxlen=12, inits=("chain", "public", "cycle", "late"), reqs=("present", "a"),
+                     runs=("TRUE", "FALSE"), view="full", exportat="end", **rich), 14, 14, None),
+    ]
+
+
 def run(pid, tier, replay=None):
     if pid != "C35":
         raise vf.MachineryError("engine incbatch does not serve " + pid)
@@ -208,28 +236,7 @@ def run(pid, tier, replay=None):
     if replay:
         return _replay(pid, replay, binary, wd)
     rng = vf.rng()
-    thorough = tier == "thorough"
-    small = dict(decls="AES", refnames=("A", "Hb"), slots=("f1",), defects=("unknown",))
-    if thorough:
-        # (name, cfg, simulate, depth, replay-sample or None = all)
-        runs = [
-            ("bfs2_chain", _cfg(maxlen=2, inits=("chain",), reqs=("present",), view="full"), None, None, None),
-            ("bfs2_public", _cfg(maxlen=2, inits=("public",), reqs=("present", "a"), view="trans", **small), None, None, None),
-            ("bfs2_hole_cycle", _cfg(maxlen=2, inits=("hole", "cycle"), reqs=("present",), view="trans", **small), None, None, None),
-            ("bfs3_flat", _cfg(maxlen=3, inits=("flat",), reqs=("all",), view="trans", pkgs="p", decls="A", refnames=("A",),
-                               slots=("f1",), defects=("syntax",), maximports=1, allowself=False,
-                               edits=[e for e in ALL_EDITS if e not in ("Comment", "TouchNoChange", "MoveDecl")]), None, None, 6000),
-            ("sim_long", _cfg(files="abcd", maxlen=24, inits=("chain", "public", "flat", "hole", "cycle"), reqs=("present", "a", "all"),
-                              refnames=("A", "B", "E", "S", "Ha", "Hb", "Hc"), slots=("f1", "f2", "x"), runs=("TRUE", "TRUE", "FALSE"),
-                              view="full", exportat="end"), 300, 25, None),
-        ]
-    else:
-        runs = [
-            ("bfs2", _cfg(maxlen=2, inits=("chain",), reqs=("present",), view="trans", **small), None, None, 500),
-            ("sim", _cfg(files="abcd", maxlen=12, inits=("chain", "public", "hole", "cycle"), reqs=("present", "a"),
-                         refnames=("A", "B", "E", "S", "Ha", "Hb", "Hc"), slots=("f1", "f2", "x"), runs=("TRUE", "TRUE", "FALSE"),
-                         view="full", exportat="end"), 12, 13, None),
-        ]
+    runs = _plan(tier)
     verdict = vf.Verdict(pid)
     notes = collections.Counter()
     total = collections.Counter()
@@ -239,44 +246,68 @@ def run(pid, tier, replay=None):
     bounds = []
     samples = []
     selftest = None
-    for name, cfg, sim, depth, nsample in runs:
-        allfile = os.path.join(wd, "cases_%s_all.jsonl" % name)
-        r, n, nexp = _tlc_cases("MCEditHistory", "MCEditHistory_%s.cfg" % name, cfg, wd, allfile, simulate=sim, depth=depth,
-                                dedupe_prefix=bool(sim))
-        if not sim:
-            states += r.distinct
-        trans += r.generated
-        exported += n
-        casefile = allfile
-        if nsample is not None and n > nsample:
-            cases = vf.jsonl_read(allfile)
-            short = [c for c in cases if len(c["steps"]) == 1]          # every single-edit history, always
-            rest = [c for c in cases if len(c["steps"]) > 1]
-            sel = short + vf.sample(rng, rest, max(0, nsample - len(short)))
-            casefile = os.path.join(wd, "cases_%s.jsonl" % name)
-            vf.jsonl_write(casefile, sel)
-        nrep = 0
-        with open(casefile) as fh:
-            for line in fh:
-                c = json.loads(line)
-                nrep += 1
-                feats |= _features(c)
-                if len(samples) < 3 and (sim or len(c["steps"]) >= 2) and any(s["valid"] == "no" for s in c["steps"]) \
-                        and any(s["valid"] == "yes" for s in c["steps"]) and len(samples) < (2 if not sim else 3):
-                    samples.append({"run": name, "origin": c["origin"]["name"], "request_mode": c["origin"]["req"],
-                                    "history": [dict(s["edit"], changed=s["changed"], valid=s["valid"], cyclic=s["cyclic"],
-                                                     run=s["run"]) for s in c["steps"][:8]]})
-        mism, st = _drive(binary, casefile, ["-workers", str(DRV_WORKERS), "-pars", "1,4"])
-        _merge(total, st)
-        for k, v in st.get("classes", {}).items():
-            classes[k] += v
-        replayed += st["cases"]
-        _feed(verdict, mism, notes)
-        bounds.append({"run": name, "simulate": sim, "depth": depth, "tlc_states": r.distinct, "tlc_generated": r.generated,
-                       "histories_exported": n, "histories_replayed": st["cases"], "steps": st["steps"],
-                       "compares": st["compares"], "cyclic_steps": st["cyclic_steps"]})
-        if selftest is None and not sim:
-            selftest = _selftests(binary, wd, casefile)
+
+    # all TLC runs are started up front (<= 3 JVMs, <= 6 TLC workers), each in its own directory;
+    # the driver replays a run's histories as soon as that run is complete
+    def gen(name, cfg, sim, depth):
+        sub = os.path.join(wd, name)
+        os.makedirs(sub, exist_ok=True)
+        return _tlc_cases("MCEditHistory", "MCEditHistory_%s.cfg" % name, cfg, sub, os.path.join(wd, "cases_%s_all.jsonl" % name),
+                          simulate=sim, depth=depth, dedupe_prefix=bool(sim), workers=2,
+                          timeout=600 if tier == "quick" else 2400)
+    pool = concurrent.futures.ThreadPoolExecutor(max_workers=3)
+    futs = {name: pool.submit(gen, name, cfg, sim, depth) for name, cfg, sim, depth, _ in runs}
+    try:
+        byfut = {f: name for name, f in futs.items()}
+        plan = {name: (cfg, sim, depth, nsample) for name, cfg, sim, depth, nsample in runs}
+        for fut in concurrent.futures.as_completed(list(byfut)):
+            name = byfut[fut]
+            cfg, sim, depth, nsample = plan[name]
+            allfile = os.path.join(wd, "cases_%s_all.jsonl" % name)
+            r, n, nexp = fut.result()
+            t_drive = time.time()
+            if not sim:
+                states += r.distinct
+            trans += r.generated
+            exported += n
+            casefile = allfile
+            if nsample is not None and n > nsample:
+                cases = vf.jsonl_read(allfile)
+                # always replayed: every single-edit history, and every history made only of declaration / file
+                # additions and removals (the edits that give names new intern ids in a long-lived session)
+                def always(c):
+                    return len(c["steps"]) == 1 or all(st["edit"]["op"] in NAME_EDITS for st in c["steps"])
+                short = [c for c in cases if always(c)]
+                rest = [c for c in cases if not always(c)]
+                sel = short + vf.sample(rng, rest, max(0, nsample - len(short)))
+                casefile = os.path.join(wd, "cases_%s.jsonl" % name)
+                vf.jsonl_write(casefile, sel)
+            with open(casefile) as fh:
+                for line in fh:
+                    c = json.loads(line)
+                    feats |= _features(c)
+                    if len(samples) < 3 and len(c["steps"]) >= 2 and not any(x["run"] == name for x in samples) \
+                            and any(s["valid"] == "no" for s in c["steps"]) and any(s["valid"] == "yes" for s in c["steps"]):
+                        samples.append({"run": name, "origin": c["origin"]["name"], "request_mode": c["origin"]["req"],
+                                        "history": [dict(s["edit"], changed=s["changed"], valid=s["valid"], cyclic=s["cyclic"],
+                                                         run=s["run"]) for s in c["steps"][:8]]})
+            mism, st = _drive(binary, casefile, ["-workers", str(DRV_WORKERS), "-pars", "1,4"])
+            _merge(total, st)
+            for k, v in st.get("classes", {}).items():
+                classes[k] += v
+            replayed += st["cases"]
+            _feed(verdict, mism, notes)
+            bounds.append({"run": name, "simulate": sim, "depth": depth, "tlc_states": r.distinct, "tlc_generated": r.generated,
+                           "histories_exported": n, "histories_replayed": st["cases"], "steps": st["steps"],
+                           "compares": st["compares"], "cyclic_steps": st["cyclic_steps"],
+                           "tlc_wall_s": round(r.wall, 1), "replay_wall_s": round(time.time() - t_drive, 1)})
+            if selftest is None and not sim:
+                t_self = time.time()
+                selftest = _selftests(binary, wd, casefile)
+                selftest["wall_s"] = round(time.time() - t_self, 1)
+    finally:
+        pool.shutdown(wait=True, cancel_futures=True)
+    bounds.sort(key=lambda b: [x[0] for x in runs].index(b["run"]))
     if total["compares"] == 0 or total["valid_yes"] == 0 or total["valid_no"] == 0 or total["cyclic_steps"] == 0:
         raise vf.MachineryError("vacuous run: %s" % dict(total))
     rc = verdict.finish()
